@@ -421,6 +421,11 @@ def run_file_family(acc, name, sizes):
 
     series = []
     sh.open = tk.open = spy
+    # the entry point may open its source through the standard library's tokenize.open (PEP 263 detection)
+    std = getattr(sh, "tokenize", None)
+    real_std_open = getattr(std, "open", None)
+    if real_std_open is not None:
+        std.open = lambda file, *a, **k: _CountingFile(real_std_open(file, *a, **k), counter)
     try:
         for n in [max(50, x // 10) for x in sizes]:
             src = TIME_FILE_FAMILIES[name](n)
@@ -438,6 +443,8 @@ def run_file_family(acc, name, sizes):
             series.append((n, counter[0]))
     finally:
         del sh.open, tk.open
+        if real_std_open is not None:
+            std.open = real_std_open
     acc.seen("file_line_reads", f"{name}: " + ", ".join(f"{n}->{c}" for n, c in series))
     if not any(c for _, c in series):
         acc.inconc("the open() spy saw no file reads", {"time_family": name})
